@@ -874,6 +874,14 @@ def c13(tier, seed):
     v.exhaustive = th
     scs += drive("C13", "shade-image", seed, 4000 if th else 600)
     scs += with_history(scs, seed)
+    # long images under maps that are almost, but not exactly, an integer translation (scale 1 + 1/1024, exact in 16.16): the
+    # sampled texel drifts by a whole texel after 512 px, which a tolerance in the integer-translation test would hide
+    for j, (mm, md, flt, ext) in enumerate((([1025, 0, 0, 1024, 0, 0], 1024, "Nearest", "Pad"), ([1023, 0, 0, 1024, 0, 0], 1024, "Nearest", "Repeat"),
+                                            ([1025, 0, 0, 1024, 2048, 0], 1024, "Nearest", "Pad"))):
+        wd = 700
+        row = [[255, x % 256, x // 256 + 1, (x * 7) % 256] for x in range(wd)]
+        scs.append({"w": wd, "h": 1, "id": "long-image-%d" % j, "fam": "shade", "den": 1, "ctm": {"m": [1, 0, 0, 1, 0, 0], "mden": 1}, "alpha": [1, 1],
+                    "via": "fill", "src": {"kind": "image", "img": {"w": wd, "h": 1, "data": row}, "extend": ext, "filter": flt, "m": mm, "mden": md}})
     cells = shader_cells(scs)
     v.extra["shader_decision_table"] = cells
     missing = [k for k in ("%s/%s/%s/%s" % (e, f, t, a) for e in ("Pad", "Repeat") for f in ("Nearest", "Bilinear")
@@ -1268,6 +1276,19 @@ def c07(tier, seed):
         g.pop("quantize", None)       # (no outline needed: only the outcome is examined)
         g["light"] = True
     geo += drive("C07", "arc-fuzz", seed + 7, 40000 if th else 8000)
+    # quadratics / cubics whose start, control or end ordinates differ by subnormal or tiny amounts (the unit divide of the
+    # monotonic chopping underflows to 0 or rounds to 1), as fills, clips and strokes
+    tinies = ["1e-45", "-1e-45", "3e-42", "-7e-40", "1.2e-38", "-1.2e-38", "1e-30", "-1e-25", "1e-10"]
+    k = 0
+    for ty in tinies:
+        for (x0, x1, x2, y2) in ((4, 16, 28, 20), (28, 3, 4, -20), (4, 4, 4, 9), (2, 30, 2, 1e-3)):
+            for ops in ([["M", x0, ty], ["Q", x1, 0, x2, y2]], [["M", x0, 0], ["Q", x1, ty, x2, y2]],
+                        [["M", x0, y2], ["Q", x1, ty, x2, 0]], [["M", x0, y2], ["Q", x1, 0, x2, ty]],
+                        [["M", x0, ty], ["C", x1, 0, x1, ty, x2, y2]], [["M", ty, x0], ["Q", 0, x1, y2, x2], ["Z"]]):
+                k += 1
+                geo.append({"id": "tiny-level-%d" % k, "fam": "stroke", "kind": ("fill", "clip", "stroke")[k % 3], "w": 32, "h": 24, "den": 1,
+                            "ops": ops, "rule": "NonZero", "ctm": {"m": [1, 0, 0, 1, 0, 0], "mden": 1}, "light": True,
+                            "style": {"width": 2, "cap": "Butt", "join": "Miter", "miter": [4, 1]}})
     t, _ = simple_validate("C07", v, geo, "geometry", "Trace_NoPanic", sigfn=lambda sc, tup: {"fam": "geometry", "what": tup[3] if len(tup) > 3 else "?"})
     v.samples = [scs[0], scs[len(scs) // 2], scs2[0]]
     return v.finish()
